@@ -154,6 +154,57 @@ def h_ref_multi(ctx):
     return Outcome("ok" if not vs else "bad", vs, nontrivial=("multi", i, j, enc, aad))
 
 
+SHARED_ALGS = [("A128GCMKW", "oct16"), ("A256GCMKW", "oct32"), ("ECDH-ES+A128KW", "P-256"), ("ECDH-ES+A256KW", "X25519"), ("ECDH-1PU+A128KW", "X25519"),
+               ("PBES2-HS256+A128KW", "oct20"), ("A128KW", "oct16"), ("RSA-OAEP", "rsa")]
+
+
+def h_lib_multi(ctx):
+    """joserfc encrypts one general-JSON message for 2-3 recipients who all use the same algorithm, named once - in the protected
+    header, in the shared unprotected header - or per recipient; recipients are added with no header of their own, an empty one, or a kid.
+    Every recipient's entry decrypts under the independent implementation."""
+    from joserfc import jwe
+    scen.register_drafts()
+    alg, kind = ctx.choose("alg/key", SHARED_ALGS)
+    n = ctx.choose("recipients", [2, 3])
+    where = ctx.choose("alg_named_in", ["protected", "unprotected", "each-recipient"])
+    rh = ctx.choose("recipient_header", ["none", "empty", "kid"])
+    enc = ctx.choose("enc", ["A128CBC-HS256", "A128GCM"] if "1PU" not in alg else ["A128CBC-HS256"])
+    if where == "each-recipient" and rh == "none":
+        return Outcome("n/a", [], nontrivial=None)
+    prot, unprot = {"enc": enc}, None
+    if where == "protected":
+        prot["alg"] = alg
+    elif where == "unprotected":
+        unprot = {"alg": alg}
+    sender = scen.key(kind, 9) if "1PU" in alg else None
+    obj = jwe.GeneralJSONEncryption(prot, b"for all of you", unprot)
+    jwks = []
+    for j in range(n):
+        jwk = scen.key(kind, j)
+        jwks.append(jwk)
+        h = None if rh == "none" else ({} if rh == "empty" else {"kid": f"r{j}"})
+        if where == "each-recipient":
+            h = {**(h or {}), "alg": alg}
+        obj.add_recipient(h, A.jkey(jwk if jwk["kty"] == "oct" else rjwk.public_of(jwk), "dict"))
+    r = call(jwe.encrypt_json, obj, None, algorithms=[alg, enc], sender_key=A.jkey(sender, "dict") if sender else None)
+    fam = alg.split("+")[0] if alg.startswith(("ECDH", "PBES2")) else (alg if not alg.endswith("GCMKW") else "GCMKW")
+    what = f"{n} x {alg} named in {where}, recipient header {rh}, enc={enc}"
+    if not r.ok:
+        return Outcome("encrypt-failed", [viol(f"encryption for several recipients of one algorithm fails: {fam}", f"{what}: {r.exc!r}")], nontrivial=(alg, n, where, rh, enc))
+    vs = []
+    for j, jwk in enumerate(jwks):
+        try:
+            if rjwe.decrypt(r.value, jwk, sender_jwk=rjwk.public_of(sender) if sender else None, index=j)[0] != b"for all of you":
+                vs.append(viol(f"a recipient entry decrypts to other content under the independent implementation: {fam}", f"{what}: entry {j}"))
+        except RefError as e:
+            vs.append(viol(f"independent implementation cannot decrypt for one of several recipients: {fam} named in {where}", f"{what}: entry {j}: {e!r}"))
+        d = call(lambda: bytes(jwe.decrypt_json(copy.deepcopy(r.value), A.jkey(jwk, "dict"), registry=jwe.JWERegistry(algorithms=[alg, enc], verify_all_recipients=False),
+                                                sender_key=A.jkey(sender, "dict", private=False) if sender else None).plaintext))
+        if not d.ok or d.value != b"for all of you":
+            vs.append(viol(f"joserfc cannot decrypt its own multi-recipient message for one of the recipients: {fam} named in {where}", f"{what}: entry {j}: {d.exc!r}"))
+    return Outcome(f"lib-multi:{'ok' if not vs else 'bad'}", vs, nontrivial=(alg, n, where, rh, enc))
+
+
 _ZP = []
 
 
@@ -250,6 +301,8 @@ _pv.single_bucket_ok = True
 _pm = Part("ref-multi-recipient", h_ref_multi, split_depth=2)
 _pm.single_bucket_ok = True
 _pz = Part("zip-framing", h_zip_framing, split_depth=2)
+_pl = Part("joserfc-multi-recipient-to-ref", h_lib_multi, split_depth=2)
+_pl.single_bucket_ok = True
 _pz.single_bucket_ok = True
 def h_threads(ctx):
     """Interoperability while a second call runs: every token joserfc encrypts under a schedule is decrypted by the reference
@@ -261,5 +314,5 @@ PARTS = [
     Part("thread-schedules", h_threads, bound={"quick": 1, "thorough": 2}, split_depth=2, budget={"quick": 200, "thorough": 3000}, engine="E3"),
     Part("ref-to-joserfc", h_from_ref, bound={"quick": 1, "thorough": 2}, split_depth=2, budget={"quick": 150, "thorough": 2400}),
     Part("joserfc-to-ref", h_to_ref, bound={"quick": 1, "thorough": 2}, split_depth=2, budget={"quick": 150, "thorough": 2400}),
-    _pm, _pv, _pz,
+    _pm, _pv, _pz, _pl,
 ]
